@@ -82,11 +82,14 @@ func lexText(ctx int, line string) string {
 	return line + "\n"
 }
 
-func lexFiles() []lexFile {
+func lexFiles(thorough bool) []lexFile {
 	var out []lexFile
 	for b := range lexBases {
 		for p := range lexPrefixes {
 			for s := range lexSuffixes {
+				if !thorough && p != 0 && s != 0 {
+					continue // quick tier: a prefix OR a suffix (288 decorated lines); the full product is thorough's
+				}
 				line := lexPrefixes[p].Text + lexBases[b].Text + lexSuffixes[s].Text
 				for c := range lexContexts {
 					if c != 0 && p != 0 && s != 0 {
@@ -177,9 +180,12 @@ func rangeHeavyFiles() []namedFile {
 
 // ---- (e) medium files around the line channel's capacity
 
-func mediumFiles() []namedFile {
+func mediumFiles(thorough bool) []namedFile {
 	var out []namedFile
 	ns := []int{9, 10, 11, 12, 13, 19, 20, 21, 22, 23, 24, 29, 30, 31, 32, 33, 34, 35, 64}
+	if !thorough {
+		ns = []int{9, 10, 11, 19, 20, 21, 29, 30, 31} // one below, at and above the capacity for 1, 2 and 3 workers
+	}
 	for _, n := range ns {
 		for _, rej := range []string{"none", "first", "first3", "mid", "last"} {
 			bad := map[int]bool{}
@@ -209,9 +215,9 @@ func mediumFiles() []namedFile {
 
 // extraInputs prepares parts (c), (d), (e); returns compute and record steps like the other parts.
 func extraInputs(r *vlib.Run, p *pool) (compute func(), record func()) {
-	lex := lexFiles()
+	lex := lexFiles(r.Thorough())
 	heavy := rangeHeavyFiles()
-	medium := mediumFiles()
+	medium := mediumFiles(r.Thorough())
 	cdb3 := []setting{{B: dnsfix.CDB, W: 1}, {B: dnsfix.CDB, W: 2}, {B: dnsfix.CDB, W: 3}}
 
 	var jobs []execJob
